@@ -84,7 +84,6 @@ Proof.
   exact (conj (fun x s word pos v a b => conj (gen_rot_equiv x s) (conj (gen_bit_equiv word pos v) (gen_mid_equiv a b)))
               gen_arith_equiv).
 Qed.
-Print Assumptions C14_gen_model.
 
 (** end to end: the regenerated kernels return the mathematical definition on the documented domain *)
 Theorem C14_gen_spec :
@@ -150,4 +149,6 @@ Theorem C14_gen_spec :
   /\ (in_ty i16 t = true -> in_ty i32 u = true ->
       Gen_bits.cmp_less_i16_i32_g t u = Some (cmp_less_spec t u) /\ Gen_bits.cmp_equal_i16_i32_g t u = Some (cmp_equal_spec t u))).
 Proof. exact (conj gen_spec_all gen_spec_arith). Qed.
-Print Assumptions C14_gen_spec.
+
+Definition C14_gen_theorems := (C14_gen_model, C14_gen_spec).
+Print Assumptions C14_gen_theorems.
